@@ -841,3 +841,249 @@ def flat_emits(items):
 
 def value_poly(e, binds=None, at=None, atom_of=None):
     return sym.to_poly(e, atom_of=atom_of)
+
+
+# --------------------------------------------------------------------------- both sides of an edge
+def _none_test_names(test):
+    """names compared with None (is / is not / == / !=) anywhere in a test"""
+    out = set()
+    for n in ast.walk(test):
+        if isinstance(n, ast.Compare) and len(n.ops) == 1 and isinstance(n.comparators[0], ast.Constant) \
+                and n.comparators[0].value is None and isinstance(n.left, ast.Name):
+            out.add(n.left.id)
+    return out
+
+
+def _nearest_loop(node):
+    for a in au.ancestors(node):
+        if isinstance(a, (ast.For, ast.While)):
+            return a
+        if isinstance(a, (ast.FunctionDef, ast.AsyncFunctionDef)):
+            return None
+    return None
+
+
+def edge_side_sites(fn):
+    """Per-edge loops that visit the faces on the two sides of an edge.  Returns a list of dicts
+    {loop, ends, kind ('direct'|'e2f'), sides, problems[(node, text)]}."""
+    out = []
+    for loop in [s for s in au.stmts(fn.body) if isinstance(s, ast.For)]:
+        it = loop.iter
+        if not (isinstance(it, ast.Call) and au.call_tail(it) == "enumerate" and it.args and au.chain(it.args[0])
+                and au.chain(it.args[0])[-1] == "edges" and isinstance(loop.target, ast.Tuple) and len(loop.target.elts) == 2
+                and isinstance(loop.target.elts[1], (ast.Tuple, ast.List)) and len(loop.target.elts[1].elts) == 2
+                and all(isinstance(x, ast.Name) for x in loop.target.elts[1].elts)):
+            continue
+        A, B = (x.id for x in loop.target.elts[1].elts)
+        body = list(au.stmts(loop.body))
+        side_loops, queries = [], []       # queries: (stmt, call, [(u, v), ...], face var)
+        for st in body:
+            if isinstance(st, ast.For) and isinstance(st.iter, ast.Call) and au.call_tail(st.iter) == "edge_to_faces" \
+                    and {au.src(a) for a in st.iter.args[:2]} == {A, B}:
+                side_loops.append(st)
+        for st in body:
+            for c in au.calls(st) if not isinstance(st, (ast.For, ast.While, ast.If)) else []:
+                if au.call_tail(c) != "direct_face" or len(c.args) < 2:
+                    continue
+                args = [au.src(a) for a in c.args[:2]]
+                sides = None
+                if set(args) == {A, B}:
+                    sides = [tuple(args)]
+                else:
+                    for lp in [a for a in au.ancestors(st) if isinstance(a, ast.For) and a is not loop]:
+                        if isinstance(lp.target, (ast.Tuple, ast.List)) and len(lp.target.elts) == 2 \
+                                and isinstance(lp.iter, (ast.Tuple, ast.List)) \
+                                and all(isinstance(x, (ast.Tuple, ast.List)) and len(x.elts) == 2 for x in lp.iter.elts):
+                            tn = [au.src(x) for x in lp.target.elts]
+                            if set(args) == set(tn):
+                                perm = [tn.index(a) for a in args]
+                                sides = [tuple(au.src(x.elts[i]) for i in perm) for x in lp.iter.elts]
+                                if lp not in side_loops:
+                                    side_loops.append(lp)
+                if sides is None:
+                    continue
+                fv = None
+                if isinstance(st, ast.Assign) and st.value is c:
+                    t = st.targets[0]
+                    fv = t.id if isinstance(t, ast.Name) else (t.elts[0].id if isinstance(t, ast.Tuple) and t.elts and isinstance(t.elts[0], ast.Name) else None)
+                queries.append((st, c, sides, fv))
+        if not queries and not side_loops:
+            continue
+        problems = []
+        if queries:
+            got = {s for q in queries for s in q[2]}
+            if got != {(A, B), (B, A)}:
+                problems.append((queries[0][1], f"the faces of edge ({A}, {B}) are queried on the side(s) {sorted(got)} only: both direct_face({A}, {B}) "
+                                                f"and direct_face({B}, {A}) must contribute"))
+        for st in body:
+            if isinstance(st, ast.Return):
+                problems.append((st, "a `return` inside the per-edge loop abandons the remaining sides / edges"))
+            if isinstance(st, ast.Break):
+                nl = _nearest_loop(st)
+                if nl is loop or any(nl is s for s in side_loops):
+                    problems.append((st, "a `break` leaves the loop over the sides of the edge: when the face on one side is absent the face "
+                                         "on the other side is never visited"))
+            if isinstance(st, ast.Continue) and _nearest_loop(st) is loop and queries:
+                tested = set()
+                for t, pol in au.guards(st, stop=loop):
+                    tested |= _none_test_names(t)
+                later = [q for q in queries if q[0].lineno > st.lineno]
+                if later and tested & {q[3] for q in queries if q[3]}:
+                    problems.append((st, "a `continue` taken when one side has no face skips the query of the other side"))
+        fvs = {q[3] for q in queries if q[3]}
+        for st, c, sides, fv in queries:
+            if any(st is s or any(st is x for x in au.stmts(sl.body)) for sl in side_loops for s in [sl]):
+                continue     # inside a loop over the sides: each iteration handles its own face
+            for t, pol in au.guards(st, stop=loop):
+                if _none_test_names(t) & fvs:
+                    problems.append((st, f"the query of side {sides[0]} is nested under a test on the face of the other side"))
+        out.append({"loop": loop, "ends": (A, B), "kind": "direct" if queries else "e2f", "problems": problems,
+                    "n_queries": len(queries), "side_loops": side_loops})
+    return out
+
+
+# --------------------------------------------------------------------------- physical degree (power of a length)
+ZERO_DEG = {"angle_3pts", "cotan", "signed_angle_2vec3D", "signed_angle_3pts", "angle_2vec2D", "angle_2vec3D", "atan2", "arctan2",
+            "aspect_ratio", "len", "normalized", "sign", "sign0", "cos", "sin", "tan", "phase"}
+
+
+class Degrees:
+    """degree in `length` of an expression built from mesh.vertices[...] (1), cross / dot (sum), norm (same), normalized (0) ...
+    None = unknown (nothing is decided on it)."""
+
+    def __init__(self, fn):
+        self.b = sym.Bindings(fn)
+        self.fn = fn
+        # names unpacked from a generator / comprehension: `pA, pB, pC = (mesh.vertices[u] for u in T[:3])`
+        self.unpacked = {}
+        for st in au.stmts(fn.body):
+            if isinstance(st, ast.Assign) and len(st.targets) == 1 and isinstance(st.targets[0], (ast.Tuple, ast.List)) \
+                    and isinstance(st.value, (ast.GeneratorExp, ast.ListComp)):
+                for t in st.targets[0].elts:
+                    if isinstance(t, ast.Name):
+                        self.unpacked.setdefault(t.id, []).append(st.value.elt)
+        self.nbind = {}
+        for st in au.stmts(fn.body):
+            for t in au.assign_targets(st):
+                for nm in au.assigned_names(t):
+                    self.nbind[nm] = self.nbind.get(nm, 0) + 1
+            if isinstance(st, ast.For):
+                for nm in au.assigned_names(st.target):
+                    self.nbind[nm] = self.nbind.get(nm, 0) + 1
+
+    def deg(self, e, at):
+        return self._d(self.b.resolve(e, at=at), at, 0)
+
+    def _join(self, ds):
+        ds = [d for d in ds]
+        if not ds or any(d is None for d in ds):
+            return None
+        return ds[0] if all(d == ds[0] for d in ds) else None
+
+    def _d(self, e, at, depth):
+        if depth > 40:
+            return None
+        d = lambda x: self._d(x, at, depth + 1)
+        if isinstance(e, ast.Constant):
+            return "const" if isinstance(e.value, (int, float)) and not isinstance(e.value, bool) else None
+        if isinstance(e, ast.Name):
+            elts = self.unpacked.get(e.id)
+            if elts and self.nbind.get(e.id, 0) == len(elts):
+                return self._join([d(x) for x in elts])
+            return None
+        if isinstance(e, ast.Subscript):
+            ch = au.chain(e.value)
+            if ch and ch[-1] == "vertices" and not isinstance(e.slice, ast.Slice):
+                return 1
+            if isinstance(e.slice, ast.Slice) or isinstance(e.slice, (ast.Constant, ast.BinOp, ast.Name)):
+                base = d(e.value)           # component / element of a vector or of a list of points
+                return base if isinstance(base, (int, float)) and not isinstance(e.value, ast.Name) else None
+            return None
+        if isinstance(e, ast.Starred):
+            return d(e.value)
+        if isinstance(e, (ast.ListComp, ast.GeneratorExp)):
+            return d(e.elt)
+        if isinstance(e, (ast.List, ast.Tuple)):
+            return self._join([d(x) for x in e.elts]) if e.elts else None
+        if isinstance(e, ast.UnaryOp):
+            return d(e.operand)
+        if isinstance(e, ast.BinOp):
+            l, r = d(e.left), d(e.right)
+            if isinstance(e.op, (ast.Add, ast.Sub)):
+                if l == "const":
+                    return r if r != "const" else "const"
+                if r == "const":
+                    return l
+                return l if l is not None and l == r else None
+            if isinstance(e.op, ast.Mult):
+                if l == "const":
+                    return r
+                if r == "const":
+                    return l
+                return l + r if l is not None and r is not None else None
+            if isinstance(e.op, ast.Div):
+                if r == "const":
+                    return l
+                if l == "const":
+                    return -r if r is not None else None
+                return l - r if l is not None and r is not None else None
+            if isinstance(e.op, ast.Pow) and isinstance(e.right, ast.Constant) and isinstance(e.right.value, (int, float)):
+                return l * e.right.value if isinstance(l, (int, float)) else l
+            return None
+        if isinstance(e, ast.Call):
+            tail = au.call_tail(e)
+            args = e.args
+            recv = e.func.value if isinstance(e.func, ast.Attribute) else None
+            if tail in ZERO_DEG:
+                return 0
+            if tail in ("Vec", "array", "asarray", "abs", "fabs", "float") and len(args) == 1:
+                return d(args[0])
+            if tail == "norm":
+                if args:
+                    return d(args[0])
+                return d(recv) if recv is not None else None
+            if tail in ("distance",) and len(args) >= 2:
+                return self._join([d(args[0]), d(args[1])])
+            if tail in ("cross", "dot", "det_2x2", "outer") and len(args) == 2:
+                a, c = d(args[0]), d(args[1])
+                return a + c if isinstance(a, (int, float)) and isinstance(c, (int, float)) else None
+            if tail == "dot" and len(args) == 1 and recv is not None:
+                a, c = d(recv), d(args[0])
+                return a + c if isinstance(a, (int, float)) and isinstance(c, (int, float)) else None
+            if tail == "det_3x3" and len(args) == 3:
+                ds = [d(a) for a in args]
+                return sum(ds) if all(isinstance(x, (int, float)) for x in ds) else None
+            if tail in ("triangle_area", "quad_area", "triangle_area_2D"):
+                ds = [d(a) for a in args]
+                j = self._join(ds)
+                return 2 * j if isinstance(j, (int, float)) else None
+            if tail == "circumcenter":
+                return self._join([d(a) for a in args])
+            if tail == "sqrt" and len(args) == 1:
+                a = d(args[0])
+                return a / 2 if isinstance(a, (int, float)) else None
+            if tail in ("sum", "max", "min", "amax", "amin", "mean") and args:
+                return self._join([d(a) for a in args]) if len(args) > 1 or tail != "sum" else d(args[0])
+            return None
+        return None
+
+
+def threshold_compares(fn):
+    """(node, dimensional side, literal, degree) for every comparison of an expression of known degree with a non-zero
+    numeric literal"""
+    from .. import order as _order
+    D = Degrees(fn)
+    for n in au.walk(fn):
+        if not isinstance(n, ast.Compare):
+            continue
+        seq = [n.left] + list(n.comparators)
+        for (l, r), op in zip(zip(seq, seq[1:]), n.ops):
+            if not isinstance(op, (ast.Lt, ast.LtE, ast.Gt, ast.GtE, ast.Eq, ast.NotEq)):
+                continue
+            for expr, lit in ((l, r), (r, l)):
+                c = _order.fold_const(lit)
+                if c is None or c == 0 or _order.fold_const(expr) is not None:
+                    continue
+                dg = D.deg(expr, n)
+                if isinstance(dg, (int, float)):
+                    yield n, expr, c, dg
